@@ -107,7 +107,7 @@ Fixpoint cond_plain (c : cond query) : bool :=
   | Cond _ _ ms => forallb (fun m => match m with MCond c' => cond_plain c' | MExpr e => eplain e end) ms
   end.
 Definition holder_plain (h : holder query) : bool :=
-  match h with HEmpty => true | HCond c => cond_plain c end.
+  match h with HEmpty => true | HChain _ => false | HCond c => cond_plain c end.
 
 Lemma fold_binop_plain op first rest : (match op with BCustom s => tok_lexes ftext b inl (WCust s) | _ => true end) = true ->
   eplain first = true -> Forall (fun e => eplain e = true) rest -> eplain (fold_binop op first rest) = true.
@@ -143,7 +143,7 @@ Qed.
 Lemma Cl_rholder kw h : (kw = "WHERE" \/ kw = "HAVING" \/ kw = "ON")%string -> holder_plain h = true ->
   Cl (rholder is_alpha b T rq kw h).
 Proof.
-  intros Hk Hp. destruct h as [|c]; [apply Cl_nil|]. cbn [rholder holder_plain] in *.
+  intros Hk Hp. destruct h as [|ms|c]; [apply Cl_nil|discriminate Hp|]. cbn [rholder holder_plain] in *.
   split; [|right; reflexivity]. cbn [app].
   apply G_pre; [apply G_rex, to_simple_expr_plain, Hp| |];
     destruct Hk as [->|[->| ->]]; kc.
